@@ -794,10 +794,8 @@ class Builtins:
             n = z3.Length(t)
             a = to_term_int(lo) if lo is not None else z3.IntVal(0)
             b = to_term_int(hi) if hi is not None else n
-            if (isinstance(lo, int) and lo < 0) or (isinstance(hi, int) and hi < 0):
-                raise Unsupported("negative slice bounds on symbolic str")
-            a = z3.If(a > n, n, a)
-            b = z3.If(b > n, n, b)
+            a = z3.If(a < 0, z3.If(n + a < 0, 0, n + a), z3.If(a > n, n, a))
+            b = z3.If(b < 0, z3.If(n + b < 0, 0, n + b), z3.If(b > n, n, b))
             return SStr(z3.SubString(t, a, z3.If(b > a, b - a, 0)), str_kind(obj))
         raise Unsupported(f"slice of {type(obj).__name__}")
 
